@@ -177,6 +177,9 @@ func c17GenLucky(rng *rand.Rand) []c17Op {
 	ops := make([]c17Op, 0, n+4)
 	t := c17Base + rng.Int64N(1e9)
 	mono := c17Sign(rng)
+	// the client's clock is set back between exchanges in some histories: the last N samples are the
+	// last N that arrived, whatever their transmit timestamps say
+	setBack := rng.IntN(4) == 0
 	for i := 0; i < n; i++ {
 		if rng.Float64() < pReset {
 			ops = append(ops, c17Op{Kind: "reset"})
@@ -248,6 +251,9 @@ func c17GenLucky(rng *rand.Rand) []c17Op {
 		s := c17Mk(t, theta, d1, d2, proc)
 		ops = append(ops, c17Op{Kind: "sample", S: &s})
 		t += c17LogU(rng, 1e6, 64e9)
+		if setBack && rng.IntN(3) == 0 {
+			t -= c17LogU(rng, 1e6, 512e9)
+		}
 	}
 	return ops
 }
